@@ -766,8 +766,30 @@ class Processor:
                     str(check_nc.path)
                 )
 
+        # Deleting one element shifts its successors, so every list must lose
+        # its highest index first -- whatever order the nodes were gathered
+        # in -- and an element gathered more than once is deleted only once.
+        def list_index(del_nc: NodeCoords) -> int:
+            if (isinstance(del_nc.parent, list)
+                    and isinstance(del_nc.parentref, int)):
+                ref = del_nc.parentref
+                return ref if ref >= 0 else len(del_nc.parent) + ref
+            return -1
+
+        unique_nodes: List[NodeCoords] = []
+        seen_elements = set()
+        for gathered_nc in delete_nodes:
+            ele_index = list_index(gathered_nc)
+            if ele_index >= 0:
+                ele_key = (id(gathered_nc.parent), ele_index)
+                if ele_key in seen_elements:
+                    continue
+                seen_elements.add(ele_key)
+            unique_nodes.append(gathered_nc)
+        unique_nodes.sort(key=list_index)
+
         # pylint: disable=locally-disabled,too-many-nested-blocks
-        for delete_nc in reversed(delete_nodes):
+        for delete_nc in reversed(unique_nodes):
             node = delete_nc.node
             parent = delete_nc.parent
             parentref = delete_nc.parentref
